@@ -297,7 +297,7 @@ def plan_C04(tier, seed):
     fl.update({"parser:log": 100, "fault_runs": q(tier, 5_000_000, 250_000_000), "final_io": 1_000_000,
                "final_fault_free_syntax_error_before_fault": 100_000, "accepted_ending_in_comment": 200,
                "accepted_ending_in_node_comment": 100, "accepted_without_final_newline": 500,
-               "distinct_nontrivial": q(tier, 1_000_000, 4_000_000)})
+               "distinct_nontrivial": q(tier, 1_000_000, 2_000_000)})
     return {
         "level": "fault_enumeration",
         "rule": "for every input (<= 2 KiB; generated documents ending in every possible way - with/without final newline, in a "
